@@ -22,6 +22,7 @@ import PoetryVerif.Proofs.MarkerLeaf
 import PoetryVerif.Proofs.MarkerLeafVersion
 import PoetryVerif.Proofs.MarkerLeafVersionText
 import PoetryVerif.Proofs.MarkerLeafCompat
+import PoetryVerif.Proofs.MarkerLeafString
 import PoetryVerif.Proofs.VersionParse
 
 set_option linter.unusedSimpArgs false
@@ -219,6 +220,54 @@ theorem leaf_agree_python_full_version_compat (E : Env) (x : Nat) (r : List Nat)
 example : 2 ≤ ([10, 0] : List Nat).length ∧
     cxEnvV.get? "python_full_version" = some (Version.relText [3, 10, 1]) := ⟨by decide, by decide +kernel⟩
 
+/-- **`name in "t0 t1 …"` / `name not in …`: membership by token** — for every string variable and every list
+literal made of plain tokens joined by non-empty runs of ` `, `,`, `|` -/
+theorem leaf_agree_string_in (E : Env) (n ev : String) (hn : n ∈ stringVarNames) (t0 : String)
+    (rest : List (String × String)) (h : ListLitOk t0 rest) (hev : E.get? (canonVar n) = some ev) :
+    itemV E n "in" (listLit t0 rest) false = .ok ((listToks t0 rest).contains ev) ∧
+    evalItem n "in" (listLit t0 rest) false E = some ((listToks t0 rest).contains ev) := by
+  obtain ⟨b, h1, h2, _⟩ := agree_in_list E n ev hn t0 rest h hev
+  have f := stringVar_facts n hn
+  have f6' : canonVar n ∉ versionVars := by simpa using f.2.2.2.2.2.1
+  have : evalItem n "in" (listLit t0 rest) false E = some ((listToks t0 rest).contains ev) := by
+    simp [evalItem, f.2.2.2.2.1, hev, f6', tokens_listLit t0 rest h, listToks]
+  rw [this] at h2
+  cases h2
+  exact ⟨h1, this⟩
+
+theorem leaf_agree_string_not_in (E : Env) (n ev : String) (hn : n ∈ stringVarNames) (t0 : String)
+    (rest : List (String × String)) (h : ListLitOk t0 rest) (hev : E.get? (canonVar n) = some ev) :
+    itemV E n "not in" (listLit t0 rest) false = .ok (!(listToks t0 rest).contains ev) ∧
+    evalItem n "not in" (listLit t0 rest) false E = some (!(listToks t0 rest).contains ev) := by
+  obtain ⟨b, h1, h2, _⟩ := agree_notin_list E n ev hn t0 rest h hev
+  have f := stringVar_facts n hn
+  have f6' : canonVar n ∉ versionVars := by simpa using f.2.2.2.2.2.1
+  have : evalItem n "not in" (listLit t0 rest) false E = some (!(listToks t0 rest).contains ev) := by
+    simp [evalItem, f.2.2.2.2.1, hev, f6', tokens_listLit t0 rest h, listToks]
+  rw [this] at h2
+  cases h2
+  exact ⟨h1, this⟩
+
+theorem listLitOk_ex : ListLitOk "nt" [(", ", "nt"), ("|", "nt")] := by
+  refine ⟨plainTok_nt, ?_⟩
+  intro p hp
+  simp at hp
+  rcases hp with rfl | rfl
+  · exact ⟨⟨by decide, by intro c hc; simp at hc; rcases hc with rfl | rfl <;> decide⟩, plainTok_nt⟩
+  · exact ⟨⟨by decide, by intro c hc; simp at hc; subst hc; decide⟩, plainTok_nt⟩
+
+example : listLit "nt" [(", ", "nt"), ("|", "nt")] = "nt, nt|nt" := by decide
+
+/-- **reversed operands** `"lit" in name` / `"lit" not in name`: the substring test on the environment value -/
+theorem leaf_agree_reversed (E : Env) (n v ev : String) (hn : n ∈ stringVarNames) (hv : PlainTok v) (ops : String)
+    (gop : Generic.Op) (hop : (ops, gop) ∈ inOps) (hev : E.get? (canonVar n) = some ev) :
+    ∃ b, itemV E n ops v true = .ok b ∧ evalItem n ops v true E = some b := by
+  obtain ⟨b, h1, h2, _⟩ := agree_rev E n v ev hn hv ops gop hop hev
+  exact ⟨b, h1, h2⟩
+
+example : ("not in", Generic.Op.nc) ∈ inOps ∧ PlainTok "nt" ∧ "sys.platform" ∈ stringVarNames :=
+  ⟨by decide, plainTok_nt, by decide⟩
+
 /-! ### the domain -/
 
 /-- the comparison operators of version variables -/
@@ -226,12 +275,6 @@ def verOps : List String := ["==", "!=", "<", "<=", ">", ">=", "~="]
 
 /-- the text of a release `X.Y` / `X.Y.Z` -/
 def relLit (r : List Nat) : String := Version.relText r
-
-/-- a list literal: plain tokens joined by non-empty runs of the separators ` `, `,`, `|` -/
-def listLit (t0 : String) (rest : List (String × String)) : String :=
-  t0 ++ String.join (rest.map fun p => p.1 ++ p.2)
-
-def SepRun (s : String) : Prop := s.toList ≠ [] ∧ ∀ c ∈ s.toList, isListSep c = true
 
 /-- the leaf shapes whose agreement is proved -/
 inductive ProvedLeaf (E : Env) : String → String → String → Bool → Prop
@@ -242,6 +285,15 @@ inductive ProvedLeaf (E : Env) : String → String → String → Bool → Prop
   | extraEq (v : String) (ex : List String) : PlainTok v → v.toList.head? ≠ some '=' → E.extras = some ex →
       ProvedLeaf E "extra" "==" v false
   | extraNe (v : String) (ex : List String) : PlainTok v → E.extras = some ex → ProvedLeaf E "extra" "!=" v false
+  /-- `name in "a b,c"`: membership by token (`listLit`: plain tokens joined by non-empty separator runs) -/
+  | strIn (n t0 : String) (rest : List (String × String)) (ev : String) : n ∈ stringVarNames →
+      ListLitOk t0 rest → E.get? (canonVar n) = some ev → ProvedLeaf E n "in" (listLit t0 rest) false
+  /-- `name not in "a b,c"` -/
+  | strNotIn (n t0 : String) (rest : List (String × String)) (ev : String) : n ∈ stringVarNames →
+      ListLitOk t0 rest → E.get? (canonVar n) = some ev → ProvedLeaf E n "not in" (listLit t0 rest) false
+  /-- `"lit" in name` / `"lit" not in name`: substring -/
+  | reversed (n v ev ops : String) (gop : Generic.Op) : n ∈ stringVarNames → (ops, gop) ∈ inOps → PlainTok v →
+      E.get? (canonVar n) = some ev → ProvedLeaf E n ops v true
   /-- `python_version op "X.Y…"`, `op ∈ ==,!=,<,<=,>,>=`, environment value `"X'.Y'…"` -/
   | pv (sop : Spec.SOp) (ops : String) (x : Nat) (r : List Nat) (x' : Nat) (r' : List Nat) :
       (sop, ops) ∈ orderedOps → E.get? "python_version" = some (relLit (x' :: r')) →
@@ -268,13 +320,6 @@ inductive ProvedLeaf (E : Env) : String → String → String → Bool → Prop
 that defines the variable with, for version variables, the text `X'.Y'…` of a final release -/
 inductive DomainLeaf (E : Env) : String → String → String → Bool → Prop
   | proved {n op v sw} : ProvedLeaf E n op v sw → DomainLeaf E n op v sw
-  /-- `name in "a b,c"` / `not in`: membership by token -/
-  | strList (n op t0 : String) (rest : List (String × String)) (ev : String) : n ∈ stringVarNames →
-      op ∈ ["in", "not in"] → PlainTok t0 → (∀ p ∈ rest, SepRun p.1 ∧ PlainTok p.2) →
-      E.get? (canonVar n) = some ev → DomainLeaf E n op (listLit t0 rest) false
-  /-- `"lit" in name` / `"lit" not in name`: substring -/
-  | reversed (n op v ev : String) : n ∈ stringVarNames → op ∈ ["in", "not in"] → PlainTok v →
-      E.get? (canonVar n) = some ev → DomainLeaf E n op v true
   /-- `python_version in "X.Y …"` -/
   | pvList (op : String) (x0 : Nat × Nat) (rest : List (String × (Nat × Nat))) (x' : Nat) (r' : List Nat) :
       op ∈ ["in", "not in"] → (∀ p ∈ rest, SepRun p.1) →
@@ -303,6 +348,9 @@ theorem leaf_agree_partial (E : Env) (n op v : String) (sw : Bool) (h : ProvedLe
   | .strNe n v ev hn hv hev => exact ⟨_, agree_string_ne E n v ev hn hv hev⟩
   | .extraEq v ex hv h0 hex => exact ⟨_, agree_extra_eq E v ex hv h0 hex⟩
   | .extraNe v ex hv hex => exact ⟨_, agree_extra_ne E v ex hv hex⟩
+  | .strIn n t0 rest ev hn hl hev => exact agree_in_list E n ev hn t0 rest hl hev
+  | .strNotIn n t0 rest ev hn hl hev => exact agree_notin_list E n ev hn t0 rest hl hev
+  | .reversed n v ev ops gop hn hop hv hev => exact agree_rev E n v ev hn hv ops gop hop hev
   | .pv sop ops x r x' r' hop hev => exact agree_pv E sop ops hop x r x' r' hev
   | .pfv2 sop ops x y x' r' hop hev => exact agree_pfv2 E sop ops hop x y x' r' hev
   | .pfv3 sop ops x r x' r' hop hr hev => exact agree_pfv3 E sop ops hop x r hr x' r' hev
